@@ -73,6 +73,43 @@ def isSingleRMW (prog : List AOp) (resOp : Option Nat) : Bool :=
   | [.fetchAdd k], some 0 => decide (0 < k)
   | _, _ => false
 
+/-! ### the formatted name
+
+`format!("{}_{}_{}", name_part, process::id(), count)`: the format string (as characters) and the list of its
+arguments are generated from the source; `renderFmt` substitutes the arguments for the `{}` placeholders in
+order (the only placeholder form the translator accepts).  Numbers are printed in decimal without leading
+zeros (`Display for u32 / usize`). -/
+
+inductive NameArg
+  | part      -- the caller's `name_part`
+  | pid       -- `process::id()`
+  | counter   -- the value obtained from TEMP_FILE_COUNTER
+  | other
+  deriving DecidableEq, Repr, Inhabited
+
+/-- decimal digits, most significant first, no leading zeros (`0` is "0") -/
+def decDigitsAux : Nat → Nat → List Char → List Char
+  | 0, _, acc => acc
+  | fuel + 1, n, acc =>
+    let acc' := Char.ofNat (48 + n % 10) :: acc
+    if n / 10 = 0 then acc' else decDigitsAux fuel (n / 10) acc'
+def decDigits (n : Nat) : List Char := decDigitsAux (n + 1) n []
+
+def renderFmt : List Char → List (List Char) → List Char
+  | '{' :: '}' :: rest, a :: as => a ++ renderFmt rest as
+  | c :: rest, as => c :: renderFmt rest as
+  | [], _ => []
+
+def nameArgText (part : List Char) (pid count : Nat) : NameArg → List Char
+  | .part => part
+  | .pid => decDigits pid
+  | .counter => decDigits count
+  | .other => []
+
+/-- the file name component built by `temp_file_name` -/
+def tempFileNameText (fmt : List Char) (args : List NameArg) (part : List Char) (pid count : Nat) : List Char :=
+  renderFmt fmt (args.map (nameArgText part pid count))
+
 /-- exhaustive search for a duplicating schedule up to a given length (used only to produce a
 replay when the obligation `isSingleRMW` fails; never part of a proof) -/
 def allSchedules (nthreads : Nat) : Nat → List (List Nat)
